@@ -1,6 +1,6 @@
 (* ParseTotalFacts.v -- proofs about the crash-site models of ParseTotal.v (C01). *)
 From CssV Require Import Base Regex RegexFacts Gen.Productions Gen.TokTables Tokenizer TokenizerFacts
-     Quote Gen.Quote Upto ParseTotal.
+     Quote Gen.StrTokenValue Upto ParseTotal.
 Local Open Scope nat_scope.
 
 (* ================================================================== 1. what a match consumes
